@@ -250,3 +250,40 @@ func VH_C05() {
 		vAssert(found == 1, "C05: every attribute appears under its own key (group members under dotted keys)")
 	}
 }
+
+// VH_C05R: the rune kernel. The message (or a string value) is one arbitrary
+// Unicode scalar value, so every rune class of the quoter (printable, control,
+// U+FFFD itself, non-printable BMP and astral runes) is reached with 1..4 bytes.
+func VH_C05R() {
+	vProduction()
+	flags = LstdFlags &^ Lcaller
+	rec := &vRec{}
+	lg := New("x").(*logimp).Entry
+	lg.SetWriter(&recW{0, rec}).SetErrorWriter(&recW{0, rec}).SetLevel(TraceLevel).SetColorMode(false)
+	r := rune(vInt32())
+	vAssume(r >= 0 && r <= 0x10FFFF && !(r >= 0xD800 && r <= 0xDFFF))
+	s := "a" + string(r) + "b"
+	asValue := vBool()
+	msg := "m"
+	var attrs Attrs
+	if asValue {
+		attrs = Attrs{NewAttr("k", s)}
+	} else {
+		msg = s
+	}
+	lg.WriteThru(vCtx, InfoLevel, vTime0(), 0, msg, attrs)
+	p := rec.evs[0].P
+	n := len(p)
+	vCover("C05R:rendered")
+	vAssert(n > 0 && p[n-1] == '\n' && strings.Count(p, "\n") == 1, "C05: the record is exactly one line")
+	pairs, ok := vLogfmtParse(p[:n-1])
+	vAssert(ok && len(pairs) >= 4, "C05: the line is space-separated key=value pairs with properly quoted values")
+	if !ok || len(pairs) < 4 {
+		return
+	}
+	if asValue {
+		vAssert(len(pairs) == 5 && pairs[4].k == "k" && pairs[4].quoted && pairs[4].v == s, "C05: a string value parses back to its exact value")
+	} else {
+		vAssert(pairs[3].quoted && pairs[3].v == s, "C05: msg parses back to the message")
+	}
+}
